@@ -86,6 +86,7 @@ def seq_pairs():
     alph = st.sampled_from([
         list("ab"), list("abc"), UNI, list(range(5)), [0, 1, "0", "1", "a"], ["a", "b", 1, 2, 10, "10"],
         ["ab", "a", "b", "abc"],
+        [-1, -2, 0, 1, 2 ** 61 - 1, 2 ** 61],       # class indices incl. the 'nothing' markers -1/-2 and very large ids
     ])
 
     @st.composite
@@ -108,6 +109,11 @@ def seq_pairs():
                     b[min(pos, len(b) - 1)] = al[int(rs.randint(0, len(al)))]
             if rs.randint(0, 2):
                 b = b[int(rs.randint(0, 10)):len(b) - int(rs.randint(0, 10))]
+            if rs.randint(0, 3) == 0:
+                # displaced copies: one sequence has a long foreign head, the other a long foreign tail
+                head = [al[int(i)] for i in rs.randint(0, len(al), size=int(rs.randint(12, 40)))]
+                tail = [al[int(i)] for i in rs.randint(0, len(al), size=int(rs.randint(12, 40)))]
+                a, b = head + a, b + tail
             return (a, b) if rs.randint(0, 2) else (b, a)
         a = draw(st.lists(sym, max_size=9))
         mode = draw(st.integers(0, 3))
